@@ -259,6 +259,8 @@ func runC09(c *Ctx) {
 	ruleAllFilesProcessed(c, "C09.3")
 	// C09.9 a declaration is accepted or refused, never looped on
 	ruleLoopsMakeProgress(c, "C09.9", genPkg)
+	ruleNoNewSwallowedRefusals(c, "C09.10", 20)
+	ruleResolutionAfterRegistration(c, "C09.11")
 
 	// ---- C09.4 cycle check on every success path that follows an edge insertion
 	c09Cycle(c)
@@ -517,22 +519,18 @@ func c09SupplierMap(c *Ctx, rule string) {
 		return
 	}
 	// the supplier map: a local map[string]*<local struct with field provider *ProviderSpec>
+	// the supplier map: a map[string]*<struct with field provider *ProviderSpec>; identified by its type (it may be built in
+	// one phase function and consulted in another), one canonical marker per function family
+	supplierMarker := &ssa.Alloc{}
 	isSupplier := func(v ssa.Value) *ssa.Alloc {
-		u, ok := v.(*ssa.UnOp)
-		if !ok || u.Op != token.MUL {
-			return nil
-		}
-		al := allocOf(u.X)
-		if al == nil {
-			return nil
-		}
-		if strings.HasPrefix(al.Type().String(), "*map[string]*") && strings.Contains(al.Type().String(), "fnProvider") {
-			return al
+		t := v.Type().String()
+		if strings.HasPrefix(t, "map[string]*") && strings.Contains(t, "fnProvider") {
+			return supplierMarker
 		}
 		return nil
 	}
 	nIns, nLook := 0, 0
-	for _, f2 := range withClosures(ng) {
+	for _, f2 := range family(L, ng) {
 		for _, b := range f2.Blocks {
 			for _, in := range b.Instrs {
 				switch x := in.(type) {
@@ -610,7 +608,7 @@ func c09SupplierMap(c *Ctx, rule string) {
 	// phantom duplicate, or one supplier into the source of an unrelated requirement.
 	nKeys := 0
 	keyShapes := map[string][]string{}
-	for _, f2 := range withClosures(ng) {
+	for _, f2 := range family(L, ng) {
 		for _, b := range f2.Blocks {
 			for _, in := range b.Instrs {
 				var m, key ssa.Value
@@ -664,7 +662,13 @@ func c09SupplierMap(c *Ctx, rule string) {
 
 	// orphan Struct: the struct-type lookup's not-found edge returns an error
 	okOrphan := false
-	for _, b := range ng.Blocks {
+	var ngBlocks []*ssa.BasicBlock
+	for _, f2 := range family(L, ng) {
+		if f2.Parent() == nil {
+			ngBlocks = append(ngBlocks, f2.Blocks...)
+		}
+	}
+	for _, b := range ngBlocks {
 		for _, in := range b.Instrs {
 			lk, ok := in.(*ssa.Lookup)
 			if !ok || !lk.CommaOk || isSupplier(lk.X) == nil {
